@@ -61,6 +61,11 @@ class PropSpec:
     def histogram(self, cases):
         return {"cases": len(cases)}
 
+    def shrink_range(self, case):
+        """(key, lo, hi): case[key][lo:hi] may be delta-debugged without invalidating what the oracle
+        assumes about the script (warm-up, final drain...). None = do not shrink."""
+        return None
+
     def extra_checks(self, ctx):
         """Additional per-property checks; may append to ctx.violations."""
         return
@@ -166,6 +171,50 @@ def correspond(ctx, spec, cases):
     return disagreements, failures, stats
 
 
+def shrink_case(spec, case, obs, text, budget=40):
+    """Delta-debug the op list of a failing case (key 'steps' or 'script'): re-run the
+    implementation and the oracle on reduced cases, keep the smallest that still fails."""
+    from vlib import shrink
+    rng_ = spec.shrink_range(case)
+    if rng_ is None:
+        return case, obs, text
+    key, lo, hi = rng_
+    if hi - lo < 2:
+        return case, obs, text
+    head, tail = case[key][:lo], case[key][hi:]
+    best = {"obs": obs, "text": text}
+    calls = [0]
+
+    def still_fails(lst):
+        if calls[0] >= budget:
+            return False
+        calls[0] += 1
+        c2 = dict(case)
+        c2[key] = head + lst + tail
+        c2["id"] = 0
+        try:
+            payload = {k: v for k, v in c2.items() if k not in ("flavour", "corpus")}
+            res, _ = harness_run(spec.harness_bin(c2), [payload], timeout=120, shards=1)
+            o2 = res.get(0)
+            if o2 is None or o2.get("panic"):
+                return False
+            fs = spec.oracle(c2, o2)
+        except Exception:      # a reduced script may be ill-formed for the family
+            return False
+        if fs:
+            best["obs"], best["text"] = o2, fs[0][0]
+            return True
+        return False
+
+    small = shrink(case[key][lo:hi], still_fails)
+    if len(small) < hi - lo:
+        c2 = dict(case)
+        c2[key] = head + small + tail
+        c2["shrunk_from_steps"] = len(case[key])
+        return c2, best["obs"], best["text"]
+    return case, obs, text
+
+
 def strip(case):
     return {k: v for k, v in case.items() if k != "id"}
 
@@ -213,6 +262,7 @@ def run_property(spec, tier, seed):
     spec.extra_checks(ctx)
     if new_fail:
         c, o, text = min(new_fail, key=lambda x: len(json.dumps(x[0])))
+        c, o, text = shrink_case(spec, c, o, text)
         ctx.violations.append(("input", {"kind": "failing input", "property": spec.pid, "failure": text,
                                          "case": strip(c), "implementation_observation": o,
                                          "how_to_replay": "./check %s --replay <this file>" % spec.pid,
